@@ -117,19 +117,34 @@ class Run:
             cmd += ["-simulate", simulate]
         cmd += (extra or []) + [module]
         t0 = time.time()
-        try:
-            r = subprocess.run(cmd, cwd=d, capture_output=True, text=True, timeout=timeout)
-        except subprocess.TimeoutExpired:
-            raise Machinery("TLC timed out on %s/%s after %ds" % (module, cfg, timeout))
-        finally:
-            shutil.rmtree(meta, True)
-        out = r.stdout + r.stderr
-        m = re.search(r"(\d+) states generated, (\d+) distinct states found", out)
-        gen, dist = (int(m.group(1)), int(m.group(2))) if m else (0, 0)
-        clean = "Model checking completed. No error has been found." in out or (simulate and "Finished in" in out and "Error:" not in out)
-        violated = "is violated" in out
+        first_tail = None
+        before = set(os.listdir(d))
+        for attempt in (1, 2):
+            try:
+                r = subprocess.run(cmd, cwd=d, capture_output=True, text=True, timeout=timeout)
+            except subprocess.TimeoutExpired:
+                raise Machinery("TLC timed out on %s/%s after %ds" % (module, cfg, timeout))
+            finally:
+                shutil.rmtree(meta, True)
+            out = r.stdout + r.stderr
+            m = re.search(r"(\d+) states generated, (\d+) distinct states found", out)
+            gen, dist = (int(m.group(1)), int(m.group(2))) if m else (0, 0)
+            clean = "Model checking completed. No error has been found." in out or (simulate and "Finished in" in out and "Error:" not in out)
+            violated = "is violated" in out
+            if clean or violated or expect_violation or attempt == 2:
+                break
+            # a JVM that died (memory pressure while many checks run side by side) says nothing about the model: one retry,
+            # recorded in the evidence; a real evaluation error fails the same way again and is reported
+            first_tail = out[-1500:]
+            for fn in set(os.listdir(d)) - before:      # what the dead run had exported so far
+                try:
+                    os.remove(os.path.join(d, fn))
+                except OSError:
+                    pass
         rec = dict(module=module, cfg=cfg, overrides=overrides or {}, generated=gen, distinct=dist,
                    wall_s=round(time.time() - t0, 1), clean=bool(clean), violated=violated)
+        if first_tail is not None:
+            rec["retried_after"] = first_tail
         self.tlc_runs.append(rec)
         if expect_violation:
             if not violated:
